@@ -143,7 +143,10 @@ class Ctx:
                 self.n_known += 1
                 return False
         self.n_violations += 1
+        if key in self.violation_keys:
+            return True  # same key already reported with a replay file; counted only
         self.violation_keys.append(key)
+        what = what if len(what) < 700 else what[:700] + " ..."
         path = self.work / f"replay_{self.n_violations:03d}.json"
         path.write_text(
             json.dumps(
